@@ -53,30 +53,129 @@ Proof.
 Qed.
 Print Assumptions C15_reseed_step.
 
+(* Histories: every operation of random.h on one generator object - init (also a second time),
+   fetch, feed, reseed, save_seed and load_seed with any storage descriptor (NULL, any region /
+   page / erase-block size, address, partial-write flag, any callback results), the one-shot
+   ascon_random in between - in any order and number, with any script of system answers.
+   hstep applies the operation (papply) and advances the ghost count, which is defined from the
+   operations alone (ghost: bytes produced since the generator last drew from the system source
+   if it draws whenever 16384 or more have been produced; a save that goes ahead produces 32
+   bytes, a load that goes ahead reseeds and produces 32).  Inv c p: the counter field equals
+   the ghost count while below 16384, is at least 16384 exactly when the ghost count is, and
+   stays below 32768. *)
 Theorem C15_reseed_history : forall ops sys,
   let '(s0, _, sys0) := prng_init Perm.perm sys in
-  let c_p := fold_left (fun '(st, p) o => (papply Perm.perm st o, ghost (r_counter (fst st)) p o)) ops ((s0, sys0), 0) in
+  let c_p := fold_left (hstep Perm.perm) ops ((s0, sys0), 0) in
   Inv (r_counter (fst (fst c_p))) (snd c_p).
-Proof.
-  intros ops sys. pose proof (init_inv Perm.perm sys) as I.
-  destruct (prng_init Perm.perm sys) as [[s0 ok] sys0]. cbn [fst] in I.
-  exact (history_inv Perm.perm ops s0 sys0 0 I).
-Qed.
+Proof. exact (init_history_inv Perm.perm). Qed.
 Print Assumptions C15_reseed_history.
 
-(* status results exactly as ascon/random.h documents them *)
-Theorem C15_status : forall s n seed ok sys st,
+(* ... hence fresh system entropy before more output once the budget is used up, across save /
+   load: in the state reached by any history, with p bytes produced since the last reseed, a
+   fetch of any size - and the fetch inside a save_seed that goes ahead - consumes the next
+   system answer first iff p >= 16384, and consumes none otherwise; a load_seed that goes ahead
+   consumes exactly one *)
+Theorem C15_reseed_due : forall ops sys n g a rest,
+  let '(s0, _, sys0) := prng_init Perm.perm sys in
+  let c_p := fold_left (hstep Perm.perm) ops ((s0, sys0), 0) in
+  let s := fst (fst c_p) in
+  let p := snd c_p in
+  snd (prng_fetch Perm.perm s n (a :: rest)) = (if reseed_limit <=? p then rest else a :: rest) /\
+  (usable (Some g) = true ->
+   snd (prng_save_seed_g Perm.perm s (Some g) (a :: rest)) = (if reseed_limit <=? p then rest else a :: rest) /\
+   snd (prng_load_seed_g Perm.perm s (Some g) (a :: rest)) = rest).
+Proof. exact (init_history_due Perm.perm). Qed.
+Print Assumptions C15_reseed_due.
+
+(* Forward security over the same histories: the object is in a re-keyed state after every
+   operation of every history - in particular right after save_seed has handed 32 output bytes
+   to the storage callback, and after load_seed has written the replacement seed (the saved
+   bytes cannot be recomputed from the state that is left). *)
+Theorem C15_forward_history : forall ops sys,
+  let '(s0, _, sys0) := prng_init Perm.perm sys in
+  exists x, r_xof (fst (fold_left (papply Perm.perm) ops (s0, sys0))) = rekey Perm.perm x.
+Proof. exact (init_history_rekeyed Perm.perm). Qed.
+Print Assumptions C15_forward_history.
+
+Theorem C15_forward_storage : forall s g sys,
+  (usable g = true ->
+   (exists x, r_xof (fst (fst (fst (prng_save_seed_g Perm.perm s g sys)))) = rekey Perm.perm x) /\
+   (exists x, r_xof (fst (fst (fst (prng_load_seed_g Perm.perm s g sys)))) = rekey Perm.perm x)) /\
+  (usable g = false ->
+   prng_save_seed_g Perm.perm s g sys = (s, (-1)%Z, [], sys) /\
+   prng_load_seed_g Perm.perm s g sys = (s, (-1)%Z, [], sys)).
+Proof.
+  exact (fun s g sys => conj (fun U => conj (save_rekeyed Perm.perm s g sys U) (load_rekeyed Perm.perm s g sys U))
+                             (fun U => conj (save_g_unusable Perm.perm s g sys U) (load_g_unusable Perm.perm s g sys U))).
+Qed.
+Print Assumptions C15_forward_storage.
+
+(* status results exactly as ascon/random.h documents them; for save / load with the full
+   storage descriptor g: the result depends on the region size and the callback's count only *)
+Theorem C15_status : forall s n seed ok sys st g,
   snd (fst (prng_init Perm.perm ((seed, ok) :: sys))) = ok /\
   snd (fst (prng_reseed Perm.perm s ((seed, ok) :: sys))) = ok /\
   snd (fst (random_oneshot Perm.perm n ((seed, ok) :: sys))) = (if ok then 1 else 0)%Z /\
   result4 (prng_save_seed Perm.perm s st sys) =
     match st with None => (-1)%Z | Some st => if st_size st <? 32 then (-1)%Z else if (st_write st =? 32)%Z then 0%Z else (-1)%Z end /\
   result4 (prng_load_seed Perm.perm s st sys) =
-    match st with None => (-1)%Z | Some st => if st_size st <? 32 then (-1)%Z else if (fst (st_read st) =? 32)%Z then 0%Z else (-1)%Z end.
+    match st with None => (-1)%Z | Some st => if st_size st <? 32 then (-1)%Z else if (fst (st_read st) =? 32)%Z then 0%Z else (-1)%Z end /\
+  result4 (prng_save_seed_g Perm.perm s g sys) =
+    match g with None => (-1)%Z | Some g => if st_size (nv_cb g) <? 32 then (-1)%Z else if (st_write (nv_cb g) =? 32)%Z then 0%Z else (-1)%Z end /\
+  result4 (prng_load_seed_g Perm.perm s g sys) =
+    match g with None => (-1)%Z | Some g => if st_size (nv_cb g) <? 32 then (-1)%Z else if (fst (st_read (nv_cb g)) =? 32)%Z then 0%Z else (-1)%Z end.
 Proof.
-  intros. split; [reflexivity|split; [reflexivity|split; [reflexivity|split; [apply status_save|apply status_load]]]].
+  exact (fun s n seed ok sys st g =>
+    conj (status_init Perm.perm seed ok sys) (conj (status_reseed Perm.perm s seed ok sys) (conj (status_oneshot Perm.perm n seed ok sys)
+    (conj (status_save Perm.perm s st sys) (conj (status_load Perm.perm s st sys)
+    (conj (status_save_g Perm.perm s g sys) (status_load_g Perm.perm s g sys))))))).
 Qed.
 Print Assumptions C15_status.
+
+(* the storage callbacks: which are called, in which order, with which arguments.  save_seed:
+   one write, offset 0, 32 bytes = the output of a 32-byte fetch, erase requested iff
+   erase_size <> 0.  load_seed: one read of 32 bytes at offset 0, then one such write of the
+   bytes fetched after (feed if 32 were read, and) reseed - whatever the read returned.
+   No call when the descriptor is NULL or smaller than 32 bytes.  Page size, address and the
+   partial-write flag influence nothing. *)
+Theorem C15_storage_calls : forall s g sys,
+  calls4 (prng_save_seed_g Perm.perm s g sys) =
+    match g with
+    | None => []
+    | Some g => if st_size (nv_cb g) <? 32 then []
+                else [CbWrite 0 32 (snd (fst (prng_fetch Perm.perm s 32 sys))) (negb (nv_erase g =? 0))]
+    end /\
+  calls4 (prng_load_seed_g Perm.perm s g sys) =
+    match g with
+    | None => []
+    | Some g => if st_size (nv_cb g) <? 32 then []
+                else [CbRead 0 32;
+                      CbWrite 0 32 (snd (fst (prng_fetch Perm.perm (fst (load_mid Perm.perm s g sys)) 32 (snd (load_mid Perm.perm s g sys)))))
+                              (negb (nv_erase g =? 0))]
+    end.
+Proof. exact (fun s g sys => conj (calls_save_g Perm.perm s g sys) (calls_load_g Perm.perm s g sys)). Qed.
+Print Assumptions C15_storage_calls.
+
+(* in every history every callback call is at offset 0 with byte count 32, a write carries
+   exactly 32 bytes and the erase request (erase_size <> 0): inside every region that passes
+   the size check, page aligned for every page size *)
+Theorem C15_storage_calls_in_history : forall ops sys g sys',
+  let '(s0, _, sys0) := prng_init Perm.perm sys in
+  let s := fst (fold_left (papply Perm.perm) ops (s0, sys0)) in
+  Forall (call_ok g) (calls4 (prng_save_seed_g Perm.perm s (Some g) sys')) /\
+  Forall (call_ok g) (calls4 (prng_load_seed_g Perm.perm s (Some g) sys')).
+Proof. exact (init_history_calls_ok Perm.perm perm_len). Qed.
+Print Assumptions C15_storage_calls_in_history.
+
+(* forgetting geometry and arguments gives the save / load of Model/Prngm.v that C11's
+   leakage model (Model/Leak.v) is written over: state, status, written bytes, script agree *)
+Theorem C15_storage_refines : forall s g sys,
+  prng_save_seed Perm.perm s (forget g) sys =
+    (let '(s1, r, cs, sys1) := prng_save_seed_g Perm.perm s g sys in (s1, r, written cs, sys1)) /\
+  prng_load_seed Perm.perm s (forget g) sys =
+    (let '(s1, r, cs, sys1) := prng_load_seed_g Perm.perm s g sys in (s1, r, written cs, sys1)).
+Proof. exact (fun s g sys => conj (save_g_refines Perm.perm s g sys) (load_g_refines Perm.perm s g sys)). Qed.
+Print Assumptions C15_storage_refines.
 
 Example C15_nonvacuous :
   let sys := [(map N.of_nat (seq 0 32), true); (map N.of_nat (seq 5 32), false)] in
@@ -84,3 +183,38 @@ Example C15_nonvacuous :
   ok = true /\ firstn 8 (zero_rate (x_st (r_xof s0))) = zeros 8 /\
   r_counter (fst (fst (prng_fetch Perm.perm s0 40 sys0))) = 40.
 Proof. vm_compute. repeat split. Qed.
+
+(* a history with save and load over a flash-like descriptor (64-byte pages, 4096-byte erase
+   blocks, non-zero address, no partial writes): calls and arguments, statuses, counter *)
+Example C15_nonvacuous_storage :
+  let sys := [(map N.of_nat (seq 0 32), true); (map N.of_nat (seq 5 32), true)] in
+  let g rr wr := Some {| nv_page := 64; nv_erase := 4096; nv_addr := 256; nv_partial := false;
+                         nv_cb := {| st_size := 64; st_read := (rr, map N.of_nat (seq 9 32)); st_write := wr |} |} in
+  let '(s0, _, sys0) := prng_init Perm.perm sys in
+  let '(s1, r1, c1, sys1) := prng_save_seed_g Perm.perm s0 (g 32%Z 31%Z) sys0 in
+  let '(s2, r2, c2, sys2) := prng_load_seed_g Perm.perm s1 (g 32%Z 32%Z) sys1 in
+  usable (g 0%Z 0%Z) = true /\ r1 = (-1)%Z /\ r2 = 0%Z /\ r_counter s1 = 32 /\ r_counter s2 = 32 /\ sys1 = sys0 /\ sys2 = [] /\
+  match c1, c2 with
+  | [CbWrite 0 32 d1 true], [CbRead 0 32; CbWrite 0 32 d2 true] => length d1 = 32 /\ length d2 = 32 /\ d1 <> d2
+  | _, _ => False
+  end.
+Proof. vm_compute. repeat split. intro H. discriminate H. Qed.
+
+(* Forward security of one re-key step as a fact about functions (Proofs/PrngFwdP.v, using that the permutation is a bijection):
+   zero-the-rate-then-permute forgets the 8 rate bytes of the state before it - two states that differ only there become equal -
+   and forgets nothing else - the 32 capacity bytes are determined by, and computable from, the state after it.  So what protects
+   earlier output is exactly that the rate is gone, and no entropy of the capacity is lost by re-keying.  (That the missing rate
+   cannot be guessed is cryptographic and not a theorem here.) *)
+From AsconV Require Import Proofs.AeadP Proofs.PermInvP Proofs.PrngFwdP.
+Theorem C15_rekey_erases_rate : forall s s', length s = 40 -> length s' = 40 -> skipn 8 s = skipn 8 s' ->
+  rekey_st Perm.perm s = rekey_st Perm.perm s'.
+Proof. exact rekey_erases_rate. Qed.
+Print Assumptions C15_rekey_erases_rate.
+Theorem C15_rekey_step_keeps_capacity : forall s s', length s = 40 -> bytes_ok s -> length s' = 40 -> bytes_ok s' ->
+  Perm.perm 0 (zero_rate s) = Perm.perm 0 (zero_rate s') -> skipn 8 s = skipn 8 s'.
+Proof. exact rekey_step_keeps_capacity. Qed.
+Print Assumptions C15_rekey_step_keeps_capacity.
+Theorem C15_rekey_step_capacity_recovered : forall s, length s = 40 -> bytes_ok s ->
+  skipn 8 (perm_inv 0 (Perm.perm 0 (zero_rate s))) = skipn 8 s.
+Proof. exact rekey_step_capacity_recovered. Qed.
+Print Assumptions C15_rekey_step_capacity_recovered.
